@@ -1,13 +1,15 @@
 #!/bin/bash
-# run the source tie (translator + Tie/IntgTie.v) against seeded patches that touch the integrator kernels
+# run the source ties (translator + Tie/*.v) against seeded patches that touch the translated kernels
 # usage: tools/tie_mutants.sh seeded/C01-a seeded/C05-a ...
 for d in "$@"; do
   wt=/tmp/tiemut_$$; rm -rf $wt; mkdir -p $wt/rockit
-  cp /repo/rockit/sampling_method.py $wt/rockit/
-  (cd $wt && patch -p1 --fuzz=3 -s < /verif/$d/patch.diff >/dev/null 2>&1) 
-  if cmp -s /repo/rockit/sampling_method.py $wt/rockit/sampling_method.py; then echo "$d: patch does not change sampling_method.py"; rm -rf $wt; continue; fi
+  cp /repo/rockit/sampling_method.py /repo/rockit/direct_collocation.py $wt/rockit/
+  (cd $wt && patch -p1 --fuzz=3 -f -s < /verif/$d/patch.diff >/dev/null 2>&1)
+  if cmp -s /repo/rockit/sampling_method.py $wt/rockit/sampling_method.py && cmp -s /repo/rockit/direct_collocation.py $wt/rockit/direct_collocation.py; then
+    echo "$d: patch does not change the translated files (or no longer applies)"; rm -rf $wt; continue; fi
   PYTHONPATH=/verif /venv/bin/python -c "
 from harness.translate import check_tie
-r=check_tie('$wt'); print('$d:', 'TIE OK (not detected by the tie)' if r['ok'] else 'BROKEN: '+r['stage']+' | '+r['log'].strip().replace('\n',' ')[:200])" 2>&1 | grep -v WARNING
+for w in ('Intg','Dc'):
+    r=check_tie('$wt', w); print('$d', w+':', 'tie ok' if r['ok'] else 'BROKEN: '+r['stage']+' | '+r['log'].strip().replace('\n',' ')[:160])" 2>&1 | grep -v WARNING
   rm -rf $wt /verif/work/gen_$(python3 -c "import hashlib,os;print(hashlib.sha256(os.path.realpath('$wt').encode()).hexdigest()[:10])")
 done
